@@ -114,6 +114,7 @@ type HarnessRun struct {
 	known   map[string]bool
 	doneSeen int
 	rng      uint64
+	concrete []WitnessVal
 }
 
 func (h *HarnessRun) note(s string) {
@@ -176,12 +177,18 @@ func applyCfg(c *Config, kv map[string]string, tier string) error {
 }
 
 func RunHarness(ld *Loaded, decl *HarnessDecl, base Config, known map[string]bool) *HarnessResult {
+	return RunHarnessW(ld, decl, base, known, nil)
+}
+
+// RunHarnessW: with a non-nil witness the harness runs once in interpreter mode (all nondet values concrete).
+func RunHarnessW(ld *Loaded, decl *HarnessDecl, base Config, known map[string]bool, witness []WitnessVal) *HarnessResult {
 	cfg := base
 	if err := applyCfg(&cfg, decl.Cfg, base.Tier); err != nil {
 		return &HarnessResult{Harness: decl.Name, Status: "inconclusive", Inconclusive: []string{err.Error()}}
 	}
 	h := &HarnessRun{ld: ld, decl: decl, cfg: cfg, fns: map[string]bool{}, stubs: map[string]bool{}, notes: map[string]bool{},
 		incs: map[string]bool{}, vioSeen: map[string]int{}, known: known}
+	h.concrete = witness
 	h.cond = sync.NewCond(&h.mu)
 	if s, err := strconv.ParseUint(os.Getenv("VERIF_SEED"), 10, 64); err == nil {
 		h.rng = s
@@ -363,7 +370,7 @@ func (h *HarnessRun) worker(w int, st *SolverStats) {
 }
 
 func newExec(ld *Loaded, h *HarnessRun, solver *Solver) *Exec {
-	ex := &Exec{ld: ld, h: h, tc: NewTermCtx(), solver: solver, globals: map[*ssa.Global]*Cell{}, pkgInit: map[*ssa.Package]bool{}}
+	ex := &Exec{ld: ld, h: h, tc: NewTermCtx(), solver: solver, globals: map[*ssa.Global]*Cell{}, pkgInit: map[*ssa.Package]bool{}, pkgInitBad: map[*ssa.Package]string{}}
 	ex.emptyStr = &StrV{}
 	for i := 0; i < 256; i++ {
 		ex.byteConst[i] = ex.tc.Const(BV(8), uint64(i))
@@ -385,6 +392,7 @@ func (ex *Exec) runPath(it workItem) (end string, msg string) {
 	ex.depth = 0
 	ex.frame = nil
 	ex.ndSeq, ex.mndSeq, ex.errSeq, ex.clockSeq = 0, 0, 0, 0
+	ex.cpos = 0
 	ex.lastClock = nil
 	ex.ndVars = nil
 	ex.obs = nil
@@ -586,7 +594,31 @@ func (ex *Exec) reportViolationK(id, msg string, m Model, known string) {
 // ---------------------------------------------------------------------------
 // harness intrinsics
 
+// concreteNext pops the next witness value in interpreter mode.
+func (ex *Exec) concreteNext(kind string) (uint64, bool) {
+	w := ex.h.concrete
+	if w == nil {
+		return 0, false
+	}
+	if ex.cpos >= len(w) || w[ex.cpos].Kind != kind {
+		ex.inconclusive(fmt.Sprintf("interpreter mode: witness mismatch at %d (want %s)", ex.cpos, kind))
+	}
+	v := w[ex.cpos].Val
+	ex.cpos++
+	if kind == "int" || kind == "int64" {
+		x, _ := strconv.ParseInt(v, 10, 64)
+		return uint64(x), true
+	}
+	x, _ := strconv.ParseUint(v, 0, 64)
+	return x, true
+}
+
 func (ex *Exec) newND(kind string, s Sort) *Term {
+	if v, ok := ex.concreteNext(kind); ok {
+		t := ex.tc.Const(s, v)
+		ex.ndVars = append(ex.ndVars, ndVar{Kind: kind, t: t})
+		return t
+	}
 	ex.ndSeq++
 	t := ex.tc.Var(fmt.Sprintf("n%d_%s", ex.ndSeq, kind), s)
 	ex.ndVars = append(ex.ndVars, ndVar{Kind: kind, t: t})
@@ -625,7 +657,12 @@ func init() {
 			if !ok {
 				ex.inconclusive("vnondetString: symbolic max")
 			}
-			n := ex.choose(int(mx) + 1)
+			var n int
+			if v, ok := ex.concreteNext("len"); ok {
+				n = int(v)
+			} else {
+				n = ex.choose(int(mx) + 1)
+			}
 			ex.ndVars = append(ex.ndVars, ndVar{Kind: "len", n: n})
 			return ex.ndString(n), true
 		},
@@ -641,7 +678,12 @@ func init() {
 			if !ok || n < 1 {
 				ex.inconclusive("vchoose: bad n")
 			}
-			k := ex.choose(int(n))
+			var k int
+			if v, ok := ex.concreteNext("choose"); ok {
+				k = int(v)
+			} else {
+				k = ex.choose(int(n))
+			}
 			ex.ndVars = append(ex.ndVars, ndVar{Kind: "choose", n: k})
 			return ex.intConst(k), true
 		},
@@ -691,6 +733,15 @@ func init() {
 		},
 		"vthorough": func(ex *Exec, fn *ssa.Function, a []Value) (Value, bool) {
 			return ex.tc.Bool(ex.h.cfg.Tier == "thorough"), true
+		},
+		"vand": func(ex *Exec, fn *ssa.Function, a []Value) (Value, bool) {
+			return ex.tc.And(a[0].(*Term), a[1].(*Term)), true
+		},
+		"vor": func(ex *Exec, fn *ssa.Function, a []Value) (Value, bool) {
+			return ex.tc.Or(a[0].(*Term), a[1].(*Term)), true
+		},
+		"vimplies": func(ex *Exec, fn *ssa.Function, a []Value) (Value, bool) {
+			return ex.tc.Implies(a[0].(*Term), a[1].(*Term)), true
 		},
 		"vfail": func(ex *Exec, fn *ssa.Function, a []Value) (Value, bool) {
 			msg, _ := concreteStr(a[0])
